@@ -1,0 +1,29 @@
+//go:build verif
+
+package api
+
+import "fmt"
+
+// verifTrack reports the start of a database-API request handler and returns the function that
+// reports its end (used as `defer verifTrack(name, opID)()`). A panic unwinding through the handler is
+// reported as "dbapi:panic" and then re-raised unchanged, so the process still dies as it does without
+// the tag; the report only keeps the harness from mistaking the unwinding for a normal return.
+func verifTrack(name string, opID []byte) func() {
+	id := string(opID)
+	verifEvent("dbapi:begin", name, id)
+	return func() {
+		if r := recover(); r != nil {
+			verifEvent("dbapi:panic", name, id, fmt.Sprint(r))
+			panic(r)
+		}
+		verifEvent("dbapi:end", name, id)
+	}
+}
+
+// VerifShutdown triggers the connection-teardown broadcast of a DatabaseAPI exactly as
+// DatabaseWebsocketAPI.shutdown does (first caller closes shutdownSignal), without a websocket.
+func (api *DatabaseAPI) VerifShutdown() {
+	if api.shuttingDown.SetToIf(false, true) {
+		close(api.shutdownSignal)
+	}
+}
